@@ -148,7 +148,7 @@ PROPERTIES = {
     "C11": {
         "level": "proof",
         "must_fail_quick": False,     # the vacuity twins of these units run under the property that owns each unit (and in C11 thorough)
-        "verus_units": ["arith_widen", "arith128", "widediv", "nofrac", "fracops", "round@*", "transc", "log2inner", "sqrtacc", "leaves", "decbin", "decbin128", "cmp@*", "fromfixed@*", "fromfloat@*", "wrapping", "traitfwd@*", "intconv", "floatglue", "trig", "cmpfloat@*", "cmpfloatrev@*", "cmpint@*", "cmpintrev@*", "bitops@*", "remint@*", "diveuclid@*"],
+        "verus_units": ["arith_widen", "arith128", "widediv", "nofrac", "fracops", "round@*", "transc", "log2inner", "sqrtacc", "powiacc", "leaves", "decbin", "decbin128", "cmp@*", "fromfixed@*", "fromfloat@*", "wrapping", "traitfwd@*", "intconv", "floatglue", "trig", "cmpfloat@*", "cmpfloatrev@*", "cmpint@*", "cmpintrev@*", "bitops@*", "remint@*", "diveuclid@*"],
         "kani": [{"harness": h, "classes": ["panic"]} for h in
                  _mods("arith8", ["i4f4", "i0f8", "u4f4", "u0f8"], FORMS) + ["arith8::abs_forms_i8"] + TFH
                  + ["float::check_to_f32", "float::check_to_f64", "float::check_kind_f32", "float::check_kind_f64"]
@@ -225,6 +225,20 @@ PROPERTIES = {
                         "axioms ax_from_src, ax_cmp_const (From<S> for D is value preserving, comparison with the I9F23 constants is exact: C04 / C03)",
                         "the true square root enters only through the integer bracket (r - 4)^2 <= X * 2^F <= (r + 4)^2, which is equivalent to "
                         "|r - sqrt(X * 2^F)| <= 4 over the reals"],
+    },
+    "C15": {
+        "level": "other",
+        "verus_units": ["powiacc", "transc"],
+        "explanation": "PARTIAL (level other): the clauses of C15 that a contract can express are proved by Verus on the real generic code, for every supported "
+                       "pair (S, D) and every i32 exponent: powi - for n >= 1 the result r satisfies |r * one^(n-1) - X^n| <= (n - 1) * max(one, |X|)^(n-1) "
+                       "(bit patterns; stronger than the stated (n + 1) ulp * max(1, |x|)^(n-1)), by the loop invariant D_j = r_j * one^(j-1) - X^j, "
+                       "|D_j| <= (j - 1) * A^(j-1); for n < 0 the result is the truncated reciprocal of a value satisfying that bound for |n|; the "
+                       "conventions 0^n = 0, x^0 = 1, x^1 = x of powi (unit powiacc) and 0^y = 0, x^0 = 1, x^1 = x of pow (unit transc).  The "
+                       "accuracy clauses of exp and pow compare with e^x and x^y over the reals and are NOT decided",
+        "not_covered": ["exp: |r - e^x| <= 2^-20 e^x + 64 ulp; pow: the propagated bound - no contract within reach of Verus or CBMC expresses e^x (DESIGN.md §6); "
+                        "a change that only degrades the accuracy of exp / pow is not detected by this check"],
+        "assumptions": ["trait-level contracts of Fixed (checked_mul = floor of the exact product, checked_div = truncated quotient) are the statements proved in unit fracops and forwarded in traitfwd",
+                        "axioms ax_from_src (From<S> for D is value preserving), S::ax_cmp (comparison of values of one type)"],
     },
     "C17": {
         "level": "proof",
